@@ -304,12 +304,21 @@ def gen_case(rng, *, n_ops, listeners=True, waits=True, attach=False, weird=Fals
             lid = rng.randint(1, 4)
             k = rng.random()
             if k < 0.15:
-                ops.append(['acl', lid])
+                if rng.random() < 0.3 and 5 not in glob_c:
+                    # through TorState.on_circuit_*: listener 5 is only ever registered this way (once), and never quits
+                    lid = 5
+                    ops.append(['aclw', lid])
+                else:
+                    ops.append(['acl', lid])
                 glob_c.append(lid)
                 for o in live_c.values():
                     listening_c[o].add(lid)
             elif k < 0.3:
-                ops.append(['asl', lid])
+                if rng.random() < 0.3 and 6 not in glob_s:
+                    lid = 6
+                    ops.append(['aslw', lid])
+                else:
+                    ops.append(['asl', lid])
                 glob_s.append(lid)
                 for o in live_s.values():
                     listening_s[o].add(lid)
@@ -581,6 +590,8 @@ class Spec:
             self.circ(op[1], op[2])
         elif k == 'strm':
             self.strm(op[1], op[2], op[3] if len(op) > 3 else None)
+        elif k in ('aclw', 'aslw'):
+            self.op([k[:3], op[1]])
         elif k == 'acl':
             for o in self.live_c.values():
                 if op[1] not in self.cobj[o]['listeners']:
